@@ -327,7 +327,9 @@ def target_reference_types():
             else:
                 obj = SRec("Field", {"ghost_virtual": False, "type": SRec("Type", {"atomic_type": SRec("AtomicType", {"reference": tref})}, defaults={"has:atomic_type": True})})
             decoy = SRec("Field", {"ghost_virtual": False, "type": SRec("Type", {"atomic_type": SRec("AtomicType", {"reference": SRec("Reference", {"ghost": "decoy"})})}, defaults={"has:atomic_type": True})})
-            path = ([SRec("Reference", {"ghost_object": decoy})] if plen == 2 else []) + [SRec("Reference", {"ghost_object": obj})]
+            # the head of a.b lives in the referring module, the member b (and its definition) possibly in another one
+            path = ([SRec("Reference", {"ghost_object": decoy, "canonical_name": SRec("CanonicalName", {"module_file": "m.emb", "object_path": ["Foo", "a"]})})] if plen == 2 else []) + \
+                [SRec("Reference", {"ghost_object": obj, "canonical_name": SRec("CanonicalName", {"module_file": "def.emb", "object_path": ["Bar", "b"]})})]
             e = fresh_expr({"field_reference": SRec("FieldReference", {"path": path})})
             pyvc.run_body(c, TC + "._type_check_local_reference", [e, "IR", errors])
             t = e.f.get("type")
@@ -337,6 +339,8 @@ def target_reference_types():
             elif kind == "virtual":
                 c.oblige("local:virtual-field's-definition-is-checked-then-its-type-copied", len(checked) == 1 and checked[0][0] is obj.f["read_transform"] and t is not None and t.f.get("ghost") == "type-of-definition" and not phys,
                          detail=repr(t.f if t is not None else None)[:200])
+                c.oblige("local:virtual-field's-definition-is-checked-as-part-of-the-file-that-defines-it", len(checked) == 1 and checked[0][1] == "def.emb",
+                         detail="source_file_name passed for the definition: %r" % (checked[0][1] if checked else None,))
             else:
                 c.oblige("local:array-field-is-opaque", t is not None and "opaque" in t.f and not phys and not checked, detail=repr(t.f if t is not None else None)[:200])
             return
